@@ -46,6 +46,12 @@ CHECKS = {
  "C05": ("zcheck", "complete enumeration of finite products (flag sets x member permutations x method types; error values x member orders x parameter spellings; reply shapes; no-parameter spellings at three call sites), each case executed against the real encoders/decoders",
          "Calls are encoded through zlink's own serializer and serde_json and compared with JSON built structurally from the value, decoded back, and decoded from every member order with every flag assignment and an unknown member (a capturing method type proves flags are hidden and other members passed through); derived and library error enums, Reply<T>, unit-output proxy methods and GetInfo with parameters absent / null / {}.",
          "Trusted: serde_json as JSON parser. The error-enum corpus is hand-written (3 types, 17 values); a generated corpus is part of C12's crate.", "4 C05"),
+ "C13": ("zcheck", "exhaustive enumeration of parser inputs: DFS over all bounded reference trees x layouts (positives), every single mutation of such texts and every short token string (negatives), each parsed by the real parser and judged by a three-valued reference recogniser written from the grammar",
+         "Must-accept texts must parse to exactly the denoted tree (members in source order within kind, names, types, comments); must-reject texts must be rejected; texts derivable only with comments/layout the statement does not name may go either way but an accepted tree must still equal the denoted one; a panic is a violation.",
+         "Trusted: the harness's reading of the published grammar (unit-tested reference recogniser). Bounded: <=2/3 members, <=2 fields per list, <=2/3 wrapper or inline type nodes per interface, token strings <=4/5. The seeded byte-soup supplement is sampling and labelled so.", "4 C13"),
+ "C14": ("zcheck", "exhaustive enumeration (DFS) of bounded interface descriptions built through the public constructors, each rendered, parsed, compared deeply and rendered again; also parser-produced descriptions and the GetInterfaceDescription exchange through a real Connection and the generated proxy",
+         "render-parse identity incl. comments on interface, members, direct fields, parameters, variants; second render equals first; what the client parses equals what the service described. One genuine defect is a listed known finding (custom enum with a commented variant renders without commas).",
+         "Bounded as C13. Comments are plain single-line texts. Descriptions produced by the derive macros are round-tripped in C16's corpus.", "4 C14"),
 }
 
 NOT_YET = {
